@@ -286,8 +286,23 @@ func mOnceDo(x *Exec, cfg *Config, f *Frame, args []Val, pos token.Pos) (Val, []
 	skip.top().idx++
 	// path A: this call runs f
 	st.assume(Not(d1))
+	var opd *protoDecl
+	var oorg *origin
+	if tv, ok := args[0].(TV); ok && tv.Org != nil {
+		if pd := x.protoFor(tv.Org); pd != nil {
+			opd, oorg = pd, tv.Org
+		}
+	}
 	setDone := func(c *Config) {
+		if opd != nil {
+			// completing the once is an atomic step of the struct's protocol
+			x.protoInterfere(c, opd, oorg)
+		}
 		c.st.heap["$oncedone"] = Store(x.onceDoneArr(c.st), once, True)
+		if opd != nil && opd.inv != nil {
+			env := x.protoEnv(c, opd, oorg)
+			x.obligeInv(c, env, opd.inv, "protocol-inv", opd.strct+" after Once completes: ", nil, pos, 0)
+		}
 	}
 	if clo != nil && len(clo.Fn.Blocks) > 0 {
 		body := clo.Fn
